@@ -29,7 +29,7 @@ func runC08(c *Ctx) {
 		site := site
 		cc := callCommon(site)
 		d := describe(cc.Value)
-		R.Ob(c.siteKey(site, "Logout receiver is the stored session"), c.P.InstrPos(site), d == "Conn.session" || d == "Conn.session", "Logout called on "+d)
+		R.Ob(c.siteKey(site, "Logout receiver is the stored session"), c.P.InstrPos(site), d == "Conn.session", "Logout called on "+d)
 		c.obFollow("Logout then session=nil", site.Parent(), func(in ssa.Instruction) bool { return in == site }, []string{"st:Conn.session=nil"}, nil, nil)
 		c.obUnreach("Logout", site, d+" == nil")
 	}
